@@ -512,7 +512,7 @@ func (c08) ID() string { return "C08" }
 func c08EditCount() int { return len(loginEdits(false)) + len(loginEdits(true)) }
 func (c08) NRuns(tier string) int {
 	if tier == "thorough" {
-		return c08EditCount()*60 + 50000
+		return c08EditCount()*300 + 300000
 	}
 	return c08EditCount()*3 + 600
 }
@@ -526,7 +526,7 @@ func (c08) Components() map[string]string {
 func (c08) Gen(r *Rand, idx int, tier string) interface{} {
 	variants := 3
 	if tier == "thorough" {
-		variants = 60
+		variants = 300
 	}
 	ne := c08EditCount() * variants
 	if idx < ne {
@@ -723,7 +723,7 @@ func init() { Register(c09{}) }
 func (c09) ID() string { return "C09" }
 func (c09) NRuns(tier string) int {
 	if tier == "thorough" {
-		return 100000
+		return 300000
 	}
 	return 1500
 }
